@@ -203,6 +203,10 @@ readArray:
 				return nil, errors.New("corrupt input: expected float, but no more values")
 			}
 			val := math.Float64frombits(a.tape.Tape[a.off])
+			if val >= 1<<63 {
+				// math.MaxInt64 rounds up to 2^63 as a float64, which does not fit.
+				return nil, errors.New("float value overflows int64")
+			}
 			if val > math.MaxInt64 {
 				return nil, errors.New("float value overflows int64")
 			}
@@ -254,7 +258,7 @@ readArray:
 				return nil, errors.New("corrupt input: expected float, but no more values")
 			}
 			val := math.Float64frombits(a.tape.Tape[a.off])
-			if val > math.MaxInt64 {
+			if val >= 1<<64 {
 				return nil, errors.New("float value overflows uint64")
 			}
 			if val < 0 {
